@@ -42,6 +42,8 @@ def recipe(c: Check):
         if st.get("parts_web"):
             need += ["NWEB_UNAUTH", "NWEB_PUBLIC"]
         missing = [k for k in need if cnt.get(k, 0) <= 0]
+        if not (st.get("distribution") or {}).get("pool-key:plain"):
+            missing.append("pool-key request form (Host = a route's transport key) not exercised")
         if cnt and missing:
             c.broken.append(dict(kind="coverage", name="model branches never reached: %s" % ",".join(missing),
                                  detail="the correspondence run did not exercise these branches of Model/HttpAuth.v"))
